@@ -2,7 +2,7 @@
    Only ExtrOcamlBasic is used: bool/option/unit/list/prod/sumbool/sumor map to OCaml's own;
    N, positive, nat stay Coq datatypes; there is no Extract Constant. *)
 From Coq Require Import Extraction ExtrOcamlBasic.
-From MIO Require Import Base Gen RemoteAddr ResId Varint Decoder.
+From MIO Require Import Base Gen RemoteAddr ResId Varint Decoder Queue QueueLog.
 
 Extraction Language OCaml.
 Set Extraction Optimize.
@@ -14,4 +14,6 @@ Separate Extraction
   ResId.gen_layout ResId.mk_id ResId.mk_id_raw ResId.resource_type ResId.adapter_id ResId.base_value
   ResId.token_of_id ResId.id_of_token ResId.issue ResId.layout_ok
   Varint.decode_size Varint.enc Varint.encode_size
-  Decoder.decode Decoder.feed Decoder.parse Decoder.frames Decoder.try_decode Decoder.store_and_decoded_data.
+  Decoder.decode Decoder.feed Decoder.parse Decoder.frames Decoder.try_decode Decoder.store_and_decoded_data
+  Queue.qinit Queue.step Queue.run Queue.sstep Queue.srun Queue.spec_init Queue.spec_step Queue.spec_run
+  QueueLog.same_multiset_b QueueLog.all_fifo_b.
